@@ -45,9 +45,18 @@ Section Cache.
     end.
 End Cache.
 
-(* environments.Shuffle on logged data: the seed is swapped for the duration of the read and restored
-   when the generator finishes OR is dropped (try/finally) *)
-Record shuffle_state := { seed : nat }.
-Definition shuffle_read (restore_on_drop : bool) (partial : bool) (st : shuffle_state) (temp : nat) : nat * shuffle_state :=
-  (* returns the seed used for this read and the state left behind *)
-  (temp, if partial && negb restore_on_drop then {| seed := temp |} else st).
+(* environments.Shuffle on logged data shuffles with seed * 3.21 (here: the function `alt`).  Reads of one filter object can overlap: a read that
+   was abandoned stays suspended until it is collected, and a new read may start in between.  Events: a read starts (it fixes the seed it will
+   use) or ends (finishes, or is dropped and finalised).
+     mutating = true  : the code before fix 9c73dd3 - start saves self._seed and overwrites it with alt(self._seed); end restores the saved value
+     mutating = false : the current code - the altered seed is a local value, the filter object is never written *)
+Inductive sev := SStart | SEnd (which : nat).      (* SEnd k ends the k-th read that was started *)
+Record sstate := { seed : nat; saved : list nat; used : list nat }.      (* saved: what each started read remembered; used: the seed each read shuffled with *)
+Definition sstep (mutating : bool) (alt : nat -> nat) (st : sstate) (e : sev) : sstate :=
+  match e with
+  | SStart => if mutating then {| seed := alt (seed st); saved := saved st ++ [seed st]; used := used st ++ [alt (seed st)] |}
+              else {| seed := seed st; saved := saved st ++ [seed st]; used := used st ++ [alt (seed st)] |}
+  | SEnd k => if mutating then {| seed := nth k (saved st) (seed st); saved := saved st; used := used st |} else st
+  end.
+Definition sruns (mutating : bool) (alt : nat -> nat) (s0 : nat) (evs : list sev) : sstate :=
+  fold_left (sstep mutating alt) evs {| seed := s0; saved := []; used := [] |}.
